@@ -59,16 +59,8 @@ fn k10_parse_blank() {
     assert!(matches!(r, Ok(None)), "blank line -> no rule");
 }
 
-//% props=C10 tier=thorough kind=P timeout=1800 pair=Parser::parse,Parser::new clause="a token list starting with Comment parses to Ok(None): no rule is produced"
-#[kani::proof]
-#[kani::unwind(4)]
-fn k10_parse_comment() {
-    let r2 = Parser::new(vec![tok(TokenKind::Comment, 0), tok(TokenKind::Eol, 1)], kani::any(), kani::any()).parse();
-    assert!(matches!(r2, Ok(None)), "comment-only line -> no rule");
-}
-
 // ---- C02: the one numeric-literal conversion that can be called without going through the parser
-//% props=C02 tier=thorough kind=B bound="Number tokens of exactly 20 decimal digits (usize::MAX has 20 digits)" timeout=2400 mem=24 pair=Parser::get_var_assign clause="converting a variable number written by the user must not panic"
+//% props=C02 tier=quick kind=B bound="Number tokens of exactly 20 decimal digits (usize::MAX has 20 digits)" timeout=2400 mem=24 pair=Parser::get_var_assign clause="converting a variable number written by the user must not panic"
 #[kani::proof]
 #[kani::unwind(22)]
 fn k2c_get_var_assign_20_digits() {
@@ -83,9 +75,9 @@ fn k2c_get_var_assign_20_digits() {
     assert!(matches!(it.kind, ParseElement::Matrix(_, Some(_))));
 }
 
-use crate::seg::verif_kani::{any_bin_nodes, any_bin_feats};
+use crate::seg::verif_kani::{any_bin_nodes, any_bin_feats, any_binmod};
 
-//% props=C12 tier=quick kind=P timeout=900 pair=Parser::join_group_with_params clause="`G:[params]`: every parameter named in the matrix overrides the group's value, every slot the matrix leaves open keeps the group's value"
+//% props=C12 tier=quick kind=P timeout=900 twin=k12_join_group_one_slot pair=Parser::join_group_with_params clause="`G:[params]`: every parameter named in the matrix overrides the group's value, every slot the matrix leaves open keeps the group's value (all slots symbolic at once)"
 #[kani::proof]
 #[kani::unwind(28)]
 fn k12_join_group_with_params() {
@@ -96,9 +88,9 @@ fn k12_join_group_with_params() {
     match r.kind {
         ParseElement::Matrix(m, None) => {
             let mut i = 0;
-            while i < 26 { assert!(m.feats[i] == if q.feats[i].is_some() { q.feats[i] } else { g.feats[i] }); i += 1; }
+            while i < 26 { assert!(m.feats[i] == if q.feats[i].is_some() { q.feats[i] } else { g.feats[i] }, "feature slot: parameter overrides, else group value"); i += 1; }
             let mut k = 0;
-            while k < 8 { assert!(m.nodes[k] == if q.nodes[k].is_some() { q.nodes[k] } else { g.nodes[k] }); k += 1; }
+            while k < 8 { assert!(m.nodes[k] == if q.nodes[k].is_some() { q.nodes[k] } else { g.nodes[k] }, "node slot: parameter overrides, else group value"); k += 1; }
             let mut j = 0;
             while j < 2 {
                 assert!(m.suprs.stress[j] == if q.suprs.stress[j].is_some() { q.suprs.stress[j] } else { g.suprs.stress[j] });
@@ -106,6 +98,29 @@ fn k12_join_group_with_params() {
                 j += 1;
             }
             assert!(m.suprs.tone == if q.suprs.tone.is_some() { q.suprs.tone } else { g.suprs.tone });
+        }
+        _ => assert!(false),
+    }
+}
+
+/// one symbolic slot at a time (small traces: used to obtain and replay a counterexample)
+//% props=C12 tier=quick kind=P timeout=900 pair=Parser::join_group_with_params clause="`G:[params]` for one symbolic feature slot and one symbolic node slot"
+#[kani::proof]
+#[kani::unwind(28)]
+fn k12_join_group_one_slot() {
+    let i: usize = kani::any();
+    let k: usize = kani::any();
+    kani::assume(i < 26 && k < 8);
+    let mut g = Modifiers { nodes: [None; 8], feats: [None; 26], suprs: SupraSegs::new() };
+    let mut q = Modifiers { nodes: [None; 8], feats: [None; 26], suprs: SupraSegs::new() };
+    g.feats[i] = any_binmod(); q.feats[i] = any_binmod();
+    g.nodes[k] = any_binmod(); q.nodes[k] = any_binmod();
+    let mut p = Parser::new(vec![tok(TokenKind::Eol, 0)], 0, 0);
+    let r = p.join_group_with_params(Item::new(ParseElement::Matrix(g.clone(), None), pos0()), Item::new(ParseElement::Matrix(q.clone(), None), pos0()));
+    match r.kind {
+        ParseElement::Matrix(m, None) => {
+            assert!(m.feats[i] == if q.feats[i].is_some() { q.feats[i] } else { g.feats[i] }, "feature slot: parameter overrides, else group value");
+            assert!(m.nodes[k] == if q.nodes[k].is_some() { q.nodes[k] } else { g.nodes[k] }, "node slot: parameter overrides, else group value");
         }
         _ => assert!(false),
     }
